@@ -42,7 +42,8 @@ ASSUMPTIONS = [
     "completeness restricted where the helper's search is incomplete by design: GW1NPLL/GW2APLL choose the VCO for the highest output only and derive the others by integer division, so only requests whose outputs are exact legal ratios (1, 3, even 2..128; one per port) of the highest one with equal margins are decided; GW5APLL ties phase granularity to the frequency margin, so only phase-0 requests are decided; ECP5PLL's 'first divider in range per output' strategy is NOT exempted (the reference accepts any divider in the margin interval as feedback)",
     "NXPLL's analog loop-filter fit (calculate_analog_parameters, 0.3 s per call, not part of the property) is stubbed on the instance except for one request per input frequency",
     "ECP5PLL variant 'dpa': expose_dpa() and uses_dpa=True on every output but the first (as test_clock does); Xilinx/Intel variant 'vco_margin=x': the public attribute set after construction",
-    "not covered: TRIONPLL/TITANIUMPLL (need an Efinity installation for the platform object), GateMatePLL (no computed configuration: frequencies are handed to the primitive), oscillators (NXOSCA, GW1NOSC)",
+    "oscillators with a programmable divider are included as single-stage models (NXOSCA: 450 MHz/(div+1) for HFCLKOUT and HFSDCOUT; GW1NOSC: 250 MHz, 210 MHz on GW1N-4, divided by FREQ_DIV in range(*osc_div_range); GW1NOSC has no configuration object separate from the emitted instance)",
+    "not covered: TRIONPLL/TITANIUMPLL (need an Efinity installation for the platform object), GateMatePLL (no computed configuration: frequencies are handed to the primitive as strings)",
     "tracer shim (names only)",
 ]
 MAXTASKS = 4
@@ -63,14 +64,16 @@ def families():
     from litex.soc.cores.clock.lattice_ecp5 import ECP5PLL
     from litex.soc.cores.clock.lattice_ice40 import iCE40PLL
     from litex.soc.cores.clock.lattice_nx import NXPLL
-    from litex.soc.cores.clock.gowin_gw1n import GW1NPLL
+    from litex.soc.cores.clock.lattice_nx import NXOSCA
+    from litex.soc.cores.clock.gowin_gw1n import GW1NPLL, GW1NOSC
     from litex.soc.cores.clock.gowin_gw2a import GW2APLL
     from litex.soc.cores.clock.gowin_gw5a import GW5APLL
     fams = [F.Xilinx(S6PLL), F.Xilinx(S6DCM), F.Xilinx(S7PLL, vco_margin=0.1), F.Xilinx(S7MMCM), F.Xilinx(USPLL),
             F.Xilinx(USMMCM), F.Xilinx(USPPLL), F.XilinxUSPMMCM(USPMMCM),
             F.Intel(CycloneIVPLL, vco_margin=0.1), F.Intel(CycloneVPLL), F.Intel(Cyclone10LPPLL), F.Intel(Max10PLL),
             F.Intel(StratixVPLL),
-            F.ECP5(ECP5PLL), F.ICE40(iCE40PLL), F.NX(NXPLL), F.Gowin1(GW1NPLL), F.Gowin1(GW2APLL), F.Gowin5(GW5APLL)]
+            F.ECP5(ECP5PLL), F.ICE40(iCE40PLL), F.NX(NXPLL), F.Gowin1(GW1NPLL), F.Gowin1(GW2APLL), F.Gowin5(GW5APLL),
+            F.NXOsc(NXOSCA), F.GowinOsc(GW1NOSC)]
     return {f.name: f for f in fams}
 
 
@@ -116,8 +119,8 @@ def uniq(xs):
 
 
 # Grid sizes.  n_in: typical inputs strictly inside the declared range (both ends and the two points 0.1 % outside are
-# always added); n1/n2/n3/nm: output grid sizes for 1, 2, 3 and >= 4 outputs; cut1: inputs above it are "light" (single
-# output requests on a 4-point output grid with margins {1e-2, 0} only); cut2 / cut3: 2-output / >=3-output requests are
+# always added); n1/n2/n3/nm: output grid sizes for 1, 2, 3 and >= 4 outputs (nm=0: none); cut1: inputs above it are
+# "light" (single output requests on a 6-point output grid with margin 1e-2 only); cut2 / cut3: 2-output / >=3-output requests are
 # only put at inputs <= cut.  The cuts exist because a REFUSED request costs the helper a complete scan whose length
 # grows with the input frequency (S7PLL 0.2-0.4 s, ECP5 0.25 s, USPMMCM 0.7 s, Intel 0.4-5 s at the top of the range).
 BASE = dict(quick=dict(n_in=2, n1=7, n2=4, n3=3, nm=2, cut1=None, cut2=450e6, cut3=260e6, m2="few", m3="few", mm=(1e-2,)),
@@ -126,7 +129,7 @@ SPEC = {
     "S6DCM":    dict(quick=dict(n_in=4, n1=12), thorough=dict(n_in=12, n1=19)),
     "iCE40PLL": dict(quick=dict(n_in=6, n1=12), thorough=dict(n_in=14, n1=19)),
     # fractional CLKOUT0: every refused (D, M) pair costs 1016 more divider tests
-    "S7MMCM":   dict(quick=dict(n2=3, n3=2, cut2=260e6, cut3=130e6), thorough=dict(n2=6, cut3=260e6)),
+    "S7MMCM":   dict(quick=dict(n2=3, n3=2, cut1=450e6, cut2=260e6, cut3=130e6), thorough=dict(n2=6, cut3=260e6)),
     "USPMMCM":  dict(quick=dict(n_in=1, n1=3, n2=2, n3=2, nm=1, cut1=130e6, m2="three", m3="two"),
                      thorough=dict(n_in=4, n1=8, n2=4, n3=3, nm=2, cut1=260e6, cut3=130e6, m2="few", m3="few", mm=(1e-2,))),
     "ECP5PLL":  dict(quick=dict(), thorough=dict(n_in=6, n2=6)),
@@ -135,7 +138,7 @@ SPEC = {
 }
 # IntelClocking.compute_config never exits early (it ranks every valid (N, M)): 0.05-0.25 s per request up to 100 MHz,
 # 0.4 s (Cyclone) to 5 s (Stratix V, 800 MHz) at the top of the input range.
-INTEL = dict(quick=dict(n_in=2, n1=5, n2=3, n3=2, nm=2, cut1=130e6, m2="three", m3="two"),
+INTEL = dict(quick=dict(n_in=2, n1=5, n2=3, n3=2, nm=0, cut1=130e6, m2="three", m3="two"),
              thorough=dict(n_in=5, n1=12, n2=5, n3=3, nm=2, cut1=210e6, cut3=130e6, m2="few", m3="few", mm=(1e-2,)))
 
 
@@ -164,8 +167,8 @@ class Grid:
         self.out2 = uniq(awk[:1] + typ[:z["n2"] - 2] + [hi_o])
         self.out3 = uniq(awk[:1] + typ[:z["n3"] - 1])
         self.outm = uniq(typ[:z["nm"]])
-        self.outl = uniq(awk[:1] + typ[:2] + [hi_o])
-        self.nmax = min(pll.nclkouts_max, 7)
+        self.outl = uniq(awk[:1] + typ[:2] + [f for f in (10e6, 12e6) if lo_o < f < hi_o] + [hi_o])
+        self.nmax = min(pll.nclkouts_max, 5 if isinstance(fam, F.Intel) else 7)
 
     def input_range(self, pll):
         for a in ("clkin_freq_range", "clki_freq_range"):
@@ -201,10 +204,10 @@ class Grid:
         return [tuple([0] * (n - 1) + [90])]
 
     def counts(self):
-        ns = [1, 2, 3] + ([self.nmax] if self.nmax > 3 else [])
+        ns = [1, 2, 3] + ([self.nmax] if (self.nmax > 3 and self.z["nm"]) else [])
         if self.tier == "thorough":
             ns = list(range(1, self.nmax + 1))
-        return [n for n in ns if n <= self.nmax]
+        return [n for n in ns if n <= self.nmax and (n <= 3 or self.z["nm"])]
 
     def out_grid(self, n):
         return {1: self.out1, 2: self.out2, 3: self.out3}.get(n, self.outm)
@@ -215,8 +218,7 @@ class Grid:
             first = True
             if z["cut1"] is not None and fin > z["cut1"]:
                 for f in self.outl:
-                    for m in (1e-2, 0):
-                        yield Req(fin, [(f, 0, m)])
+                    yield Req(fin, [(f, 0, 1e-2)])
                 continue
             for n in self.counts():
                 if n >= 3 and z["cut3"] is not None and fin > z["cut3"]:
@@ -261,7 +263,41 @@ class GowinGrid(Grid):
                     yield Req(fin, [(fs[0], 0, m), (fs[1], 0, m)])
 
 
+class OscGrid:
+    """oscillators: output frequencies around source/div for small, middle and the extreme dividers, awkward values, the
+    declared ends; NXOSCA: HF only, SDC only, and both outputs (Cartesian)"""
+    def __init__(self, fam, pll, tier):
+        self.fam, self.tier = fam, tier
+        src = pll.clk_hf_freq if fam.name == "NXOSCA" else 250e6
+        self.src = src
+        dmax = 255 if fam.name == "NXOSCA" else 127
+        pts = [src, src * 1.001, src / 2, src / 3, src / 7, src / 10, src / 100, src / dmax, src / dmax * 0.999, src / (dmax + 1),
+               src / 2.5, 24.576e6, 10e6, 2e6, 1e6, 48e6, 100e6, 33.333e6]
+        if tier == "thorough":
+            pts += [src / d for d in range(4, dmax, 9)] + [src / (d + 0.5) for d in range(2, 40, 3)] + [210e6, 105e6, 5e6, 3e6]
+        self.out1 = uniq(pts)
+        self.out2 = uniq([src / 2, src / 10, 24.576e6, src / 2.5] + ([src / 100, 100e6, 1e6] if tier == "thorough" else []))
+        self.inputs, self.out3, self.outm = [src], [], []
+        self.margins = [0, 1e-4, 1e-2, 5e-2]
+
+    def counts(self):
+        return [1, 2] if self.fam.name == "NXOSCA" else [1]
+
+    def requests(self):
+        kinds = (("hf",), ("sdc",)) if self.fam.name == "NXOSCA" else ((),)
+        for kind in kinds:
+            for f in self.out1:
+                for m in self.margins:
+                    yield Req(self.src, [(f, 0, m)], kind)
+        if self.fam.name == "NXOSCA":
+            for f0, f1 in itertools.product(self.out2, repeat=2):
+                for m0, m1 in ((1e-2, 1e-2), (5e-2, 1e-4), (0, 5e-2)):
+                    yield Req(self.src, [(f0, 0, m0), (f1, 0, m1)], ("hf", "sdc"))
+
+
 def grid_for(fam, pll, tier):
+    if isinstance(fam, (F.NXOsc, F.GowinOsc)):
+        return OscGrid(fam, pll, tier)
     if isinstance(fam, F.Gowin1):
         return GowinGrid(fam, pll, tier)
     return Grid(fam, pll, tier)
@@ -361,7 +397,7 @@ def run_config(cfg, seed, tier):
     cpu0 = time.process_time()
     fam = families()[famname]
     variant = fam.variants()[vi]
-    probe = fam.new(variant[1])
+    probe = fam.cls if isinstance(fam, F.GowinOsc) else fam.new(variant[1])
     fam.post_new(probe, variant[0])
     grid = grid_for(fam, probe, tier)
     reqs = list(grid.requests())
